@@ -3,6 +3,7 @@ package main
 // C02 — conditions branch on the value of the written boolean expression.
 
 import (
+	"regexp"
 	"fmt"
 	"sort"
 	"strings"
@@ -106,6 +107,30 @@ func c02b(c *Ctx) {
 		}
 		arms[ops[0]] = true
 		c.Check(want[ops[0]] == cc, "var-goto["+ops[0]+"]", pos, "operator "+ops[0]+" -> goto_if_"+cc, fmt.Sprintf("operator %q renders goto_if_%s, expected goto_if_%s", ops[0], cc, want[ops[0]]))
+	}
+	// the same table written as data: `if cmd, ok := gotoCommands[expr.Operator]; ok { write("\t%s %s_%d\n", cmd, …) }`
+	// with a package-level map that is only ever read
+	for _, ws := range c.sitesOf(fn) {
+		if !ws.isFmt || ws.format != "\t%s %s_%d\n" || len(ws.argT) != 3 {
+			continue
+		}
+		m := regexpMust(`^@emitter\.([A-Za-z_][A-Za-z_0-9]*)\[` + regexp.QuoteMeta(E) + `\.Operator\]#0$`).FindStringSubmatch(ws.argT[0])
+		if m == nil || !c.W.constGlobal("emitter", m[1]) {
+			continue
+		}
+		presence := "+@emitter." + m[1] + "[" + E + ".Operator]#1"
+		if !hasLit(siteMust(ws), presence) {
+			c.Bad("var-goto/table-presence", c.W.Pos(ws.call.Pos()), "the conditional goto is written from the table "+m[1]+" without testing that the operator is listed")
+			continue
+		}
+		tbl, ok := c.globalMapLiteral("emitter", m[1])
+		if !ok {
+			continue
+		}
+		for op, cmd := range tbl {
+			arms[op] = true
+			c.Check("goto_if_"+want[op] == cmd, "var-goto["+op+"]", c.W.Pos(ws.call.Pos()), "operator "+op+" -> "+cmd+" (table "+m[1]+")", fmt.Sprintf("operator %q renders %s, expected goto_if_%s", op, cmd, want[op]))
+		}
 	}
 	for op := range want {
 		if !arms[op] {
@@ -795,17 +820,107 @@ func c02h(c *Ctx) {
 					}
 					// the nested call of parseBooleanExpression: negated for '(' , !negated for '!('
 					okPlain, okFlip, okOther := false, false, true
+					// what is known about the next token on the ways to the call that agree with an
+					// edge's own condition (the flag may be chosen by testing '(' or by testing '!(')
+					pcf := c.PC(f)
+					dCall := pcf.canonOf(pcf.At(call.Block()))
+					// a bare boolean merge among an edge's literals is opened into the ways it can be true
+					expand := func(must []string) [][]string {
+						alts := [][]string{{}}
+						for _, l := range must {
+							var opts [][]string
+							if strings.HasPrefix(l, "+phi(") && !strings.Contains(l, " == ") {
+								if v := c.valueOfTerm(f, l[1:]); v != nil {
+									if ph, ok := v.(*ssa.Phi); ok {
+										if ways, known := pcf.valueWays(ph, ph.Block(), true, 0); known {
+											for _, w := range ways {
+												cw := pcf.canonOf(dnf{cs: []conj{w}})
+												opts = append(opts, append([]string{l}, cw.cs[0]...))
+											}
+										}
+									}
+								}
+							}
+							if opts == nil {
+								opts = [][]string{{l}}
+							}
+							var next [][]string
+							for _, a := range alts {
+								for _, o := range opts {
+									next = append(next, append(append([]string{}, a...), o...))
+								}
+							}
+							alts = next
+						}
+						return alts
+					}
+					// the same term cannot equal two different constants
+					clash := func(cj conj) bool {
+						eq := map[string]string{}
+						for _, l := range cj {
+							if !strings.HasPrefix(l, "+(") || !strings.HasSuffix(l, `")`) {
+								continue
+							}
+							i := strings.Index(l, ` == "`)
+							if i < 0 {
+								continue
+							}
+							t, k := l[2:i], l[i+5:len(l)-2]
+							if prev, ok := eq[t]; ok && prev != k {
+								return true
+							}
+							eq[t] = k
+						}
+						return false
+					}
+					parenOn := func(must0 []string) (all, none bool) {
+						all, none = true, true
+						n := 0
+						for _, must := range expand(must0) {
+						for _, cj := range dCall.cs {
+							cur := cj
+							okC := true
+							for _, l := range must {
+								var ok2 bool
+								cur, ok2 = conjAdd(cur, l)
+								if !ok2 {
+									okC = false
+									break
+								}
+							}
+							if !okC || clash(cur) {
+								continue
+							}
+							n++
+							if !hasLit(cur, `+($0.peekToken.Type == "(")`) {
+								all = false
+							}
+							if !hasLit(cur, `-($0.peekToken.Type == "(")`) && !hasLit(cur, `+($0.peekToken.Type == "!")`) {
+								none = false
+							}
+						}
+						}
+						if n == 0 {
+							return false, false
+						}
+						return all, none
+					}
 					for _, e := range edges {
+						all, none := parenOn(e.must)
 						switch {
-						case e.term == "$2" && hasLit(e.must, `+($0.peekToken.Type == "(")`):
+						case e.term == "$2" && (hasLit(e.must, `+($0.peekToken.Type == "(")`) || all):
 							okPlain = true
-						case e.term == "!$2" && hasLit(e.must, `-($0.peekToken.Type == "(")`):
+						case e.term == "!$2" && (hasLit(e.must, `-($0.peekToken.Type == "(")`) || none):
 							okFlip = true
 						default:
 							okOther = false
 						}
 					}
-					c.Check(okPlain && okFlip && okOther, key, pos, "'(' keeps the flag, '!(' flips it", "the parenthesised sub-expression is not parsed with (negated for '(' / !negated for '!(')")
+					dbg := ""
+					for _, e := range edges {
+						dbg += fmt.Sprintf(" [%s under %v]", e.term, e.must)
+					}
+					c.Check(okPlain && okFlip && okOther, key, pos, "'(' keeps the flag, '!(' flips it", "the parenthesised sub-expression is not parsed with (negated for '(' / !negated for '!('):"+dbg)
 				}
 			}
 		}
